@@ -464,4 +464,26 @@ def mirror_matrix(repo: Repo) -> RuleRun:
 
 mirror_matrix.rule_id = "C13.MIRROR-MATRIX"
 
-RULES = [rollback, probe_restore, who_writes_points, backport_rule, warning_filter, affine_kinds, link_relation, owns_geometry, angle_dimension, float_stores, backport_table, mirror_matrix]
+def grid_quality(repo: Repo) -> RuleRun:
+    """'a step is kept only if the summed quality of all cells did not get worse': the quantity the rollback decision (and the
+    objective of linked clamps) is made with is the sum over the CELLS, each once. A junction's quality is an average over the cells
+    that meet there, so a sum over junctions weighs rim cells more than inner ones. Abstract run of GridBase.quality on a grid whose
+    cells and junctions report different numbers."""
+    r = RuleRun(PROP, "C13.GRID-QUALITY", floor=2, what="GridBase.quality is the sum of the cells' qualities, every cell once (not of junction averages)")
+    q = repo.find_method(repo.cls("optimize.grid.GridBase"), "quality")
+    r.require(q is not None and q.is_property, "GridBase.quality vanished")
+    for label, cells, junctions in (("3 cells, 8 junctions", [1, 10, 100], [1, 5, 5, 50, 50, 100, 100, 1]), ("1 cell", [7], [7, 7, 7, 7]), ("4 cells, equal junction sum", [1, 2, 3, 4], [5, 5])):
+        g = Obj("grid", cls=repo.cls("optimize.grid.GridBase"))
+        g.set("cells", [Obj(f"cell{i}", quality=v) for i, v in enumerate(cells)])
+        g.set("junctions", [Obj(f"junction{i}", quality=v) for i, v in enumerate(junctions)])
+        try:
+            got = Evaluator(repo=repo, module=q.module).call_funcinfo(q, [g])
+        except (Raised, NotEvaluable) as err:
+            raise AnalysisError(f"GridBase.quality not evaluable: {err}") from err
+        r.check(got == sum(cells), q, f"{label}: {got} = sum over cells", f"GridBase.quality, {label}: cells report {cells}, junctions {junctions}; the grid reports {got!r} instead of {sum(cells)} - the rollback test and the objective of linked clamps are made with a number in which the cells are not weighted equally", q.node, key=f"quality:{label}")
+    return r
+
+
+grid_quality.rule_id = "C13.GRID-QUALITY"
+
+RULES = [rollback, probe_restore, who_writes_points, backport_rule, warning_filter, affine_kinds, link_relation, owns_geometry, angle_dimension, float_stores, backport_table, mirror_matrix, grid_quality]
